@@ -1,0 +1,29 @@
+//go:build verif
+
+// Package verifhook provides instrumentation points for the verification harness in /verif.
+// With the build tag "verif" every At call is forwarded to the handler the harness installs
+// (stamping, seeded perturbation, parking); without a handler it does nothing.
+package verifhook
+
+import "sync/atomic"
+
+// Handler receives every hook call.
+type Handler func(point string, keys []string)
+
+var handler atomic.Pointer[Handler]
+
+// SetHandler installs (or, with nil, removes) the handler.
+func SetHandler(h Handler) {
+	if h == nil {
+		handler.Store(nil)
+		return
+	}
+	handler.Store(&h)
+}
+
+// At marks a synchronisation point.
+func At(point string, keys ...string) {
+	if h := handler.Load(); h != nil {
+		(*h)(point, keys)
+	}
+}
